@@ -43,6 +43,26 @@ NumOfSpell(s) ==
       sg == IF p.neg THEN 0 - 1 ELSE 1
   IN  IF ~p.dot THEN IntV(sg * DigitsVal(p.ip, 0))
       ELSE Flt(sg * (DigitsVal(p.ip, 0) * (10^Len(p.fp)) + DigitsVal(p.fp, 0)), 10^Len(p.fp))
+\* exponent spelling  mantissa (e|E) (+|-)? digits  - what a float of 10^6 and more, or below 10^-4, prints as
+ExpAt(s) == IF \E i \in 1..Len(s) : s[i] \in {69, 101} THEN CHOOSE i \in 1..Len(s) : s[i] \in {69, 101} /\ \A j \in 1..(i - 1) : s[j] \notin {69, 101} ELSE 0
+ExpParts(s) ==
+  LET e == ExpAt(s)
+      mant == SubSeq(s, 1, e - 1)
+      rest == SubSeq(s, e + 1, Len(s))
+      neg == rest # <<>> /\ rest[1] = 45
+      ds == IF rest # <<>> /\ rest[1] \in {43, 45} THEN Tail(rest) ELSE rest
+  IN  [mant |-> mant, neg |-> neg, ds |-> ds]
+IsExpSpell(s) ==
+  /\ ExpAt(s) > 1
+  /\ LET p == ExpParts(s) m == NumSpellParts(p.mant) IN
+       /\ IsNumSpell(p.mant) /\ m.ip # <<>> /\ (m.dot => m.fp # <<>>)
+       /\ p.ds # <<>> /\ Len(p.ds) <= 2 /\ AllDigits(p.ds) /\ DigitsVal(p.ds, 0) <= 6
+       /\ (IF p.neg THEN Len(m.fp) + DigitsVal(p.ds, 0) <= 6 ELSE Len(m.ip) + DigitsVal(p.ds, 0) <= 8)
+NumOfExpSpell(s) ==
+  LET p == ExpParts(s)
+      m == NumOfSpell(p.mant)
+      x == DigitsVal(p.ds, 0)
+  IN  IF p.neg THEN Flt(NumN(m), NumD(m) * (10^x)) ELSE Flt(NumN(m) * (10^x), NumD(m))
 \* bytes that may occur in some spelling Go's ParseFloat accepts
 FloatishByte(b) == IsDigitB(b) \/ b \in {43, 45, 46, 95, 69, 101, 88, 120, 80, 112,
                                          73, 105, 78, 110, 70, 102, 65, 97, 84, 116, 89, 121}
@@ -54,6 +74,7 @@ IsLongDigits(s) == Len(s) \in 8..16 /\ AllDigits(s) /\ s[1] # 48
 AsNum(v, isRecv) ==
   CASE IsNum(v) -> [r |-> "num", v |-> v]
     [] v.k = "str" /\ isRecv /\ IsLongDigits(v.v) -> [r |-> "num", v |-> BigV(FALSE, v.v)]
+    [] v.k = "str" /\ isRecv /\ IsExpSpell(v.v) -> [r |-> "num", v |-> NumOfExpSpell(v.v)]
     [] v.k = "str" -> IF IsNumSpell(v.v) THEN
                          (IF isRecv THEN [r |-> "num", v |-> NumOfSpell(v.v)] ELSE [r |-> "unspec"])
                       ELSE IF DefinitelyNotNumber(v.v) THEN [r |-> "err"]
